@@ -1,4 +1,5 @@
 """Symbolic collections (maps of arbitrary size, ranges, lists) — filled in below."""
+import ast
 from .values import *   # noqa: F401,F403
 from . import values as V
 
@@ -673,6 +674,42 @@ class NameDict:
 
     def sym_equals(self, interp, other):
         return other is self
+
+
+class NameFiltered:
+    """[name for name in <name dict / name set> if cond(name)]: known only through whether it is empty
+    (exists n. n in d and cond(n)); its text (', '.join(...)) is opaque."""
+    py_iterable = True
+    py_type = 'list'
+
+    def __init__(self, nonempty):
+        self.nonempty = nonempty
+
+    def sym_truth(self, interp):
+        return self.nonempty
+
+    def sym_iterate(self, interp, node=None):
+        raise Unsupported("iteration over a filtered name collection of arbitrary size")
+
+
+def names_comprehension(interp, e, env, coll):
+    """list comprehension with one generator over the keys of a NameDict / a NameSet whose element is the loop variable"""
+    from .interp import Env
+    g = e.generators[0]
+    if not (isinstance(g.target, ast.Name) and isinstance(e.elt, ast.Name) and e.elt.id == g.target.id):
+        raise Unsupported("comprehension over a name collection of arbitrary size")
+    n = fresh('n!comp', Name)
+    sc = Env(env)
+    sc.set(g.target.id, NameV(n))
+    cond = _z3.BoolVal(True)
+    interp.pure += 1
+    try:
+        for c in g.ifs:
+            v = interp.ev(c, sc)
+            cond = _z3.And(cond, boolz(v))
+    finally:
+        interp.pure -= 1
+    return NameFiltered(_z3.Exists([n], _z3.And(coll.mem[n], cond)))
 
 
 class NameDictValues:
